@@ -84,7 +84,10 @@ class World:
                 self.prim[p].to(self.prim[d])
             elif op == "ToNonFloat":
                 o = self.obj(p, via)
-                o.to(torch.int64) if how == "to(dtype)" else o.to(torch.zeros(1, dtype=torch.int64))
+                # every kind of non-floating dtype takes its turn: integers, booleans and COMPLEX numbers
+                self.nnf = getattr(self, "nnf", 0) + 1
+                nf = [torch.int64, torch.complex64, torch.bool, torch.int32, torch.complex128][self.nnf % 5]
+                o.to(nf) if how == "to(dtype)" else o.to(torch.zeros(1, dtype=nf))
             elif op == "Simulate":
                 # every other simulation states the initial state explicitly, with the price as a Python INTEGER (admissible:
                 # "scalar initial states"); the declared dtype decides the dtype of the series, not the spelling of the state
@@ -122,7 +125,7 @@ class World:
     def project(self) -> Dict[str, Any]:
         out = {"default": NAME[torch.get_default_dtype()], "declared": {}, "bufs": {}}
         for p, prim in self.prim.items():
-            out["declared"][p] = "none" if prim.dtype is None else NAME[prim.dtype]
+            out["declared"][p] = "none" if prim.dtype is None else NAME.get(prim.dtype, str(prim.dtype))
             out["bufs"][p] = {}
             have = dict(prim.named_buffers())
             for b in BUFS[p]:
@@ -144,8 +147,11 @@ class World:
                 return x.sum(-1, keepdim=True)
 
         feats = ["moneyness", "log_moneyness", "time_to_maturity", "max_moneyness", "underlier_spot", "prev_hedge"]
+
+        def feats_for(prim):      # volatility / variance where the model defines them (computed on demand for BrownianStock & co.)
+            return feats + ([] if type(prim).__name__ in ("CIRRate", "VasicekRate") else ["volatility", "variance"])
         if not hasattr(self, "_kept"):
-            self._kept = {p: Hedger(SumNet(), list(feats)) for p in self.prim}
+            self._kept = {p: Hedger(SumNet(), feats_for(self.prim[p])) for p in self.prim}
         for p, prim in self.prim.items():
             have = dict(prim.named_buffers())
             if set(have) != {self.real(p, b) for b in BUFS[p]}:
@@ -157,12 +163,12 @@ class World:
             for name, fn in (("hedge", lambda h: h.compute_hedge(d)), ("P&L", lambda h: h.compute_pl(d))):
                 try:
                     kept = fn(self._kept[p])
-                    fresh = fn(Hedger(SumNet(), list(feats)))
+                    fresh = fn(Hedger(SumNet(), feats_for(prim)))
                 except RuntimeError as e:
                     if dt in (torch.float16, torch.bfloat16):
                         ctx.skip("half precision: backend does not implement an operation", 1)
                         continue
-                    ctx.violation("dtype:reused:raises", f"{name} with a long-lived hedger raised RuntimeError on {NAME[dt]} buffers", {"error": str(e)[:200], "trace": trace})
+                    ctx.violation("dtype:reused:raises", f"{name} with a long-lived hedger raised RuntimeError on {NAME.get(dt, str(dt))} buffers", {"error": str(e)[:200], "trace": trace})
                     continue
                 ctx.count(n=1)
                 if kept.dtype != fresh.dtype or kept.dtype != dt:
@@ -215,7 +221,7 @@ class World:
                     if half:
                         ctx.skip("half precision: backend does not implement an operation", 1)
                         continue
-                    ctx.violation("dtype:computed:raises", f"{name} raised RuntimeError on {NAME[dt]} buffers", {"error": str(e)[:200], "trace": trace})
+                    ctx.violation("dtype:computed:raises", f"{name} raised RuntimeError on {NAME.get(dt, str(dt))} buffers", {"error": str(e)[:200], "trace": trace})
                     continue
                 ctx.count(n=1)
                 if t.dtype != dt:
